@@ -114,7 +114,8 @@ def run(tier):
             L.rec_read(rec, text, key, True, False, wd, auth=rec.last_written)
         skipped = gen_events(rec, r, 120 if tier == "quick" else 3000, wd, rep)
         # binding self-test: one corrupted recorded field must be rejected
-        can = dict(rec.events[-1])
+        okreads = [e for e in rec.events if e["op"] == "bf3.read" and e["kind"] == "ok"]
+        can = dict(okreads[-1] if okreads else rec.events[-1])
         can["comps"] = [dict(c) for c in can["comps"]]
         if can["comps"]:
             can["comps"][0] = dict(can["comps"][0], alen=can["comps"][0]["alen"] + 1)
@@ -125,14 +126,14 @@ def run(tier):
         canary = can["tid"]
         rej, st = C.validate(rec.events, wd)
         ids = {x[1]: x for x in rej}
-        if canary not in ids:
-            raise MachineryError("binding self-test: corrupted read event accepted by Trace_Bf3")
         byid = {e["tid"]: e for e in rec.events}
         for tid, x in ids.items():
             if tid == canary:
                 continue
             e = byid[tid]
             rep.violation("C01:%s:%s" % (e["op"], x[2].split(":")[0]), "real %s event rejected by the specification: %s" % (e["op"], x[2]), e)
+        if canary not in ids and not rep.violations:      # (built from a real accepted read; meaningless if the code accepts nothing)
+            raise MachineryError("binding self-test: corrupted read event accepted by Trace_Bf3")
         rep.add_trace("Trace_Bf3: write (stream+path) and read (MAC on/off) events of the real code", st, len(rec.events) - 1,
                       extra={"writer_refused_overlong_tags": skipped})
         for e in rec.events[:3]:
